@@ -45,7 +45,7 @@ class C02(Check):
                        "feat:repeated-key", "feat:qudit-measure", "feat:classical-control", "feat:sympy-condition",
                        "feat:bitmask-condition", "feat:indexed-condition", "feat:pauli-measure", "feat:reset", "feat:subcircuit", "feat:subcircuit-key-map", "feat:subcircuit-rep-ids",
                        "sim:sv", "sim:dm", "sim:clifford", "sim:stab-sampler", "entry:run", "entry:simulate",
-                       "entry:steps", "entry:sample", "entry:run_sweep", "entry:sweep-from-state", "entry:direct-functions", "mux:subcircuit-clifford-only-as-product", "entry:step-sampling", "step-sampling:integer-seed", "direct:sample_from_amplitudes", "direct:measure_density_matrix", "gen:deep-clifford", "init:vector", "init:int", "order:permuted", "order:spectator"]
+                       "entry:steps", "entry:sample", "entry:run_sweep", "entry:sweep-from-state", "entry:direct-functions", "entry:stabilizer-measure", "entry:wide-register", "mux:subcircuit-clifford-only-as-product", "entry:step-sampling", "step-sampling:integer-seed", "direct:sample_from_amplitudes", "direct:measure_density_matrix", "gen:deep-clifford", "init:vector", "init:int", "order:permuted", "order:spectator"]
 
     def setup(self) -> None:
         from simkit import repoenv
@@ -67,6 +67,10 @@ class C02(Check):
             return self._direct_functions(tape, ctx)
         if tape.chance(1, 12, "step-sampling?"):
             return self._step_sampling(tape, ctx)
+        if tape.chance(1, 25, "stabilizer-measure?"):
+            return self._stabilizer_measure(tape, ctx)
+        if tape.chance(1, 40, "wide-register?"):
+            return self._wide_register(tape, ctx)
         clifford = tape.chance(1, 5, "clifford-circuit?")
         deep_clifford = clifford and tape.chance(1, 2, "deep-clifford?")
         g = qgen.Gen(tape, clifford_only=clifford, allow_channels=False, allow_qudits=not clifford,
@@ -417,6 +421,111 @@ class C02(Check):
         ctx.state(("step-sampling", api, int_seed, kind, split, len(qs), min(n, 16)))
         ctx.sample = {"entry": what, "circuit": str(ref_c).splitlines()[:16], "leaves_explored": n,
                       "generators_made_from_the_integer": made, "draws_repeated_from_one_stream": replayed}
+
+    def _stabilizer_measure(self, tape, ctx: Ctx) -> None:
+        """CliffordTableau.measure / StabilizerStateChForm.measure called directly on a state built by a Clifford
+        circuit, with a generator object or an integer as seed: the joint distribution of the measured axes is
+        the Born distribution (over the seeds, for an integer)."""
+        cirq = self.cirq
+        sp = __import__("engines.scripted_prng", fromlist=["x"])
+        qref = __import__("engines.qref", fromlist=["x"])
+        ctx.probe("entry:stabilizer-measure")
+        g = self.qgen.Gen(tape, clifford_only=True, allow_measure=False, allow_control=False, allow_reset=False,
+                          allow_pauli_measure=False, max_qudits=4, max_ops=8)
+        circuit = g.circuit()
+        for q in g.qudits:
+            if q not in circuit.all_qubits():
+                circuit.append(cirq.I(q))
+        circuit = cirq.Circuit(op for op in circuit.all_operations() if op.qubits)     # no qubit-less phases here
+        qs = sorted(g.qudits)
+        n = len(qs)
+        which = tape.draw(2, "representation")     # 0 tableau, 1 CH form
+        int_seed = tape.chance(2, 3, "integer-seed?")
+        seed_value = [0, 3, 99][tape.draw(3, "seed-value")]
+        k = 1 + tape.draw(n, "n-axes")
+        axes = tape.shuffle(list(range(n)), "axes")[:k]
+        ref_c = circuit + cirq.Circuit(cirq.measure(*[qs[a] for a in axes], key="s"))
+        branches = qref.QRef(qs).run(ref_c, 0)
+        p_ref = {kk[0][0][1][0]: v[0] for kk, v in qref.merge_by_records(branches).items()}
+
+        def leaf(prng):
+            if which == 0:
+                st = cirq.CliffordTableauSimulationState(cirq.CliffordTableau(n), qubits=qs, prng=prng)
+                rep = st.tableau
+            else:
+                st = cirq.StabilizerChFormSimulationState(qubits=qs, prng=prng, initial_state=0)
+                rep = st.state
+            for op in circuit.all_operations():
+                cirq.act_on(op, st)
+            rep = st.tableau if which == 0 else st.state
+            with sp.int_seeds_scripted(prng) as fam:
+                out = rep.measure(list(axes), seed=(seed_value if int_seed else prng))
+            return tuple(int(b) for b in out), fam.replayed
+
+        try:
+            leaves = sp.explore(leaf, 300)
+        except (sp.TreeTooLarge, sp.UnmodelledSeedReuse):
+            ctx.probe("tree-too-large")
+            return
+        w = {}
+        replayed = 0
+        for wt, (bits, rp), _t in leaves:
+            w[bits] = w.get(bits, 0.0) + wt
+            replayed = max(replayed, rp)
+        if replayed:
+            ctx.fault("integer-seed-stream-reuse")
+        what = (f"{'CliffordTableau' if which == 0 else 'StabilizerStateChForm'}.measure({axes}, "
+                f"seed={seed_value if int_seed else '<generator>'})")
+        for bits in set(w) | set(p_ref):
+            if abs(w.get(bits, 0.0) - p_ref.get(bits, 0.0)) > 1e-6:
+                raise Violation(f"{P}-DIST", f"{what}: outcome {bits} has probability {w.get(bits, 0.0):.6f}"
+                                             f"{' over the seeds' if int_seed else ''}, the Born rule gives "
+                                             f"{p_ref.get(bits, 0.0):.6f}\n{ref_c}")
+        ctx.decide("case", repr(ref_c), which, int_seed, seed_value, axes, len(leaves))
+        ctx.nontrivial = len(leaves) >= 2
+        ctx.steps += len(leaves)
+        ctx.state(("stabilizer-measure", which, int_seed, n, len(axes), min(len(leaves), 8)))
+        ctx.sample = {"entry": what, "circuit": str(ref_c).splitlines()[:14], "leaves_explored": len(leaves)}
+
+    def _wide_register(self, tape, ctx: Ctx) -> None:
+        """Registers far too wide for a dense state, which the product-state simulators handle qubit by qubit:
+        a computational basis state given as an integer, a few flips, every qubit measured.  The records are
+        determined: bit i of the result is bit i of the initial state, flipped where an X acted."""
+        cirq = self.cirq
+        sp = __import__("engines.scripted_prng", fromlist=["x"])
+        ctx.probe("entry:wide-register")
+        n = 40 + tape.draw(30, "n-qubits")
+        qs = cirq.LineQubit.range(n)
+        bits = [tape.draw(2, "bit") if i < 6 or i > n - 8 else (i * 7 + n) % 3 % 2 for i in range(n)]
+        if tape.chance(1, 2, "all-ones?"):
+            bits = [1] * n
+        init = int("".join(map(str, bits)), 2)
+        flips = sorted(set(tape.draw(n, "flip") for _ in range(tape.draw(4, "n-flips"))))
+        kind = "dm" if tape.chance(1, 3, "dm?") else "sv"
+        grp = 4 if kind == "dm" else 8       # a joint measurement merges its qubits into one dense state
+        circuit = cirq.Circuit([cirq.X(qs[i]) for i in flips],
+                               [cirq.measure(*qs[j:j + grp], key=f"m{j}") for j in range(0, n, grp)])
+        want = list(bits)
+        for i in flips:
+            want[i] ^= 1
+
+        def leaf(prng):
+            sim = (cirq.Simulator if kind == "sv" else cirq.DensityMatrixSimulator)(seed=prng)
+            res = sim.simulate(circuit, initial_state=init, qubit_order=qs)
+            return [int(b) for j in range(0, n, grp) for b in res.measurements[f"m{j}"]]
+
+        leaves = sp.explore(leaf, 4)
+        for _w, got, _t in leaves:
+            if got != want:
+                bad = [i for i in range(n) if got[i] != want[i]]
+                raise Violation(f"{P}-DIST", f"{kind} simulate of {n} qubits from basis state {init} (bits "
+                                             f"{''.join(map(str, bits))}), X on {flips}, all measured: qubits {bad} "
+                                             f"read {[got[i] for i in bad]} instead of {[want[i] for i in bad]}")
+        ctx.decide("case", "wide-register", n, init, flips, kind)
+        ctx.nontrivial = True
+        ctx.steps += 1
+        ctx.state(("wide-register", kind, n > 53, bool(flips)))
+        ctx.sample = {"entry": f"{kind} simulate, {n} qubits, integer initial state, all measured", "flips": flips}
 
     def _sample_from_amplitudes(self, tape, ctx: Ctx) -> None:
         cirq = self.cirq
